@@ -160,6 +160,17 @@ CHECKS = {
         note="Reference interpreter and identity tracking are part of the trusted base; sets with equal-but-distinguishable members are compared by equality only.",
         technique="bounded-exhaustive program enumeration against a reference interpreter + stateless model checking of schedules on selected programs",
     ),
+
+    "C13": dict(
+        engine="E3", category="exploration",
+        text=("(a) Every operation sequence of length <= 3 over a 14-operation alphabet (successful run, run failing in the stale check / in a call / in a store write, dry run, render, render(level), run without output, "
+              "transform_physical that edits the physical plan, run without registry, fresh_time run, 2-worker random run, Plan.copy / Registry.copy followed by mutation of the copy) on five plans; a deep identity snapshot "
+              "(node objects, their scope/fn/value/stack_frame identities, edge multiset with keys and data, plan scope, registry entries and RegistryValue objects) is compared after EVERY step and a final run is compared with a pristine twin. "
+              "(b) Stateless model checking (E1) of two threads that run / dry-run the SAME plan and registry concurrently: every schedule with <= 1 preemption (bounded non-default choices at blocking points), scheduling points at attribute/subscript accesses inside the transformation code; "
+              "both must return the sequential result and the snapshot must be unchanged."),
+        design_ref="DESIGN.md section 4, C13", note=E1_NOTE + " Node objects are shared between a plan and its copies by design; only structural mutation of copies is exercised.",
+        technique="bounded-exhaustive operation-sequence enumeration with snapshot invariant + stateless model checking of concurrent runs",
+    ),
 }
 
 NOT_APPLICABLE = {
